@@ -8,18 +8,26 @@ variable {U : List Nat}
 /-- `s'` is well formed, string `h` reads `bs` in it and every other string of `U` reads what it
     read in `s` -/
 def Writes (U : List Nat) (s s' : State) (h : Nat) (bs : List UInt8) : Prop :=
-  Inv U s' ∧ cstr s' h = bs ∧ ∀ g ∈ U, g ≠ h → cstr s' g = cstr s g
+  Inv U s' ∧ cstr s' h = bs ∧ (∀ g ∈ U, g ≠ h → cstr s' g = cstr s g) ∧ (∀ g, g ≠ h → ptr s' g = ptr s g)
+
+theorem Writes.others {s s' : State} {h : Nat} {bs : List UInt8} (w : Writes U s s' h bs) :
+    ∀ g ∈ U, g ≠ h → cstr s' g = cstr s g := w.2.2.1
+
+theorem Writes.ptrs {s s' : State} {h : Nat} {bs : List UInt8} (w : Writes U s s' h bs) :
+    ∀ g, g ≠ h → ptr s' g = ptr s g := w.2.2.2
 
 theorem Writes.trans {s s1 s2 : State} {h : Nat} {b1 b2 : List UInt8} (w1 : Writes U s s1 h b1)
     (w2 : Writes U s1 s2 h b2) : Writes U s s2 h b2 :=
-  ⟨w2.1, w2.2.1, fun g hg hgh => (w2.2.2 g hg hgh).trans (w1.2.2 g hg hgh)⟩
+  ⟨w2.1, w2.2.1, fun g hg hgh => (w2.others g hg hgh).trans (w1.others g hg hgh),
+   fun g hgh => (w2.ptrs g hgh).trans (w1.ptrs g hgh)⟩
 
 theorem Writes.refl {s : State} (hi : Inv U s) (h : Nat) : Writes U s s h (cstr s h) :=
-  ⟨hi, rfl, fun _ _ _ => rfl⟩
+  ⟨hi, rfl, fun _ _ _ => rfl, fun _ _ => rfl⟩
 
 theorem Writes.ext {s s1 s2 : State} {h : Nat} {bs : List UInt8} (w : Writes U s s1 h bs) (e : Ext s1 s2) :
     Writes U s s2 h bs :=
-  ⟨e.inv w.1, by rw [← e.cstr]; exact w.2.1, fun g hg hgh => by rw [← e.cstr]; exact w.2.2 g hg hgh⟩
+  ⟨e.inv w.1, by rw [← e.cstr]; exact w.2.1, fun g hg hgh => by rw [← e.cstr]; exact w.others g hg hgh,
+   fun g hgh => by rw [← e.1]; exact w.ptrs g hgh⟩
 
 theorem deref_eq {s : State} {p : Nat} {d : Data} (hp : p ≠ 0) (hd : s.heap.get? p = some d) : deref s p = .ok d := by
   simp [deref, hp, hd]
@@ -45,7 +53,7 @@ theorem privWrite {s : State} (hi : Inv U s) {h : Nat} (hh : h ∈ U) {p : Nat} 
     obtain ⟨_, _, c, _⟩ := hi.heap p d hd
     exact ⟨c.1, rfl, hfit⟩
   obtain ⟨a, b, c⟩ := update_spec hi hd (d' := { d with bytes := bs, len := bs.length }) rfl hw
-  refine ⟨a, b h hp hp0, fun g hg hgh => c g ?_⟩
+  refine ⟨a, b h hp hp0, fun g hg hgh => c g ?_, fun _ _ => rfl⟩
   intro hgp
   exact hgh (hi.private_unique hh hg hd hr hp hgp)
 
@@ -59,7 +67,7 @@ theorem ensureAlloced_spec {s : State} (hi : Inv U s) {h : Nat} (hh : h ∈ U) (
     obtain ⟨nd, hnd⟩ : ∃ nd : Data, nd = { refcount := 0, alloced := amount, cap := amount, len := 0, bytes := [] } := ⟨_, rfl⟩
     have hw : WFd nd := by rw [hnd]; exact ⟨rfl, rfl, by simp; omega⟩
     obtain ⟨f1, f2, f3, f4, f5⟩ := fresh_spec hi hh hp nd hw (by rw [hnd])
-    refine ⟨_, nd, ?_, ⟨f1, ?_, ?_⟩, by rw [f2]; have := hi.nid; omega, by rw [f2]; exact f3, by rw [hnd], by rw [hnd]; exact Nat.le_refl _⟩
+    refine ⟨_, nd, ?_, ⟨f1, ?_, ?_, f4⟩, by rw [f2]; have := hi.nid; omega, by rw [f2]; exact f3, by rw [hnd], by rw [hnd]; exact Nat.le_refl _⟩
     · have : amount > 0 := ha
       simp only [ensureAlloced, hp, if_true, this, ← hnd]; rfl
     · rw [(cstr_null hp hi).1]
@@ -98,7 +106,7 @@ theorem ensureAlloced_spec {s : State} (hi : Inv U s) {h : Nat} (hh : h ∈ U) (
         rw [hs', hnd]; rfl
       have hn : (setPtr (afterDelRef s (ptr s h) d) h 0).nextId = s.nextId := by simp
       rw [hn] at f2 f3 f5
-      refine ⟨s', nd, hrun, ⟨hext.inv f1, ?_, ?_⟩, ?_, ?_, by rw [hnd], by rw [hnd]; exact ham1.2⟩
+      refine ⟨s', nd, hrun, ⟨hext.inv f1, ?_, ?_, fun g hgh => by rw [← hext.1, f4 g hgh]; simp [hgh]⟩, ?_, ?_, by rw [hnd], by rw [hnd]; exact ham1.2⟩
       · rw [← hext.cstr]
         have hne : ptr (setPtr (alloc (setPtr (afterDelRef s (ptr s h) d) h 0) nd).1 h
             (alloc (setPtr (afterDelRef s (ptr s h) d) h 0) nd).2) h ≠ 0 := by rw [f2]; have := hi.nid; omega
@@ -190,7 +198,7 @@ theorem ensureDataWritable_spec {s : State} (hi : Inv U s) {h : Nat} (hh : h ∈
           · simp [hx]
         · rw [hs2]; simp [alloc, setPtr, afterDelRef]; split <;> rfl
       have hGne : ptr G h ≠ 0 := by rw [f2]; exact hq0
-      refine ⟨F, hrun, Writes.ext ⟨f1, ?_, ?_⟩ hext, fun e => absurd (hold ▸ e) hp, fun _ => ⟨nd, ?_, ?_, by rw [hnd]⟩⟩
+      refine ⟨F, hrun, Writes.ext ⟨f1, ?_, ?_, fun g hgh => by rw [f4 g hgh]; simp [hgh]⟩ hext, fun e => absurd (hold ▸ e) hp, fun _ => ⟨nd, ?_, ?_, by rw [hnd]⟩⟩
       · rw [(cstr_of_get (by rw [f2]; exact f3) hGne).1, (cstr_of_get (by rw [← hold]; exact hd) (by rw [← hold]; exact hp)).1, hnd]
       · intro g hg hgh
         rw [← r2 g hg hgh]
